@@ -120,4 +120,29 @@ def preload {G : Type} (load : Nat → Option G) (n : Nat) : Option (GCache G) :
 
 def lazy {G : Type} (n : Nat) : GCache G := { cache := List.replicate n none, loader := true }
 
+/-! ## `Font::advance`: the hinted-advance cache (`Font::m_advances`)
+
+`V` is whatever the application's callback returns (a float in the code; the cache never computes with it), `sent` is
+`INVALID_ADVANCE`.  The cache holds one cell per glyph, all `sent` at construction. -/
+
+/-- `Font::advance(gid)`: the value returned, the cache afterwards, and whether the application's callback was called.
+`none` outside the array (the callers only ask for glyphs of the face). -/
+def advance {V : Type} [DecidableEq V] (sent : V) (f : Nat → V) (c : List V) (gid : Nat) : Option (V × List V × Bool) :=
+  match c[gid]? with
+  | none => none
+  | some v =>
+    if v = sent then some ((c.set gid (f gid)).getD gid sent, c.set gid (f gid), true)   -- miss: store, then return the cell
+    else some (v, c, false)
+
+/-- `Font::Font`: every cell invalid -/
+def advInit {V : Type} (sent : V) (n : Nat) : List V := List.replicate n sent
+
+/-- a history of requests: the values returned (oldest first) and the final cache -/
+def advRun {V : Type} [DecidableEq V] (sent : V) (f : Nat → V) : List V → List Nat → List (Option (V × Bool)) × List V
+  | c, [] => ([], c)
+  | c, g :: rest =>
+    match advance sent f c g with
+    | none => let r := advRun sent f c rest; (none :: r.1, r.2)
+    | some (v, c', called) => let r := advRun sent f c' rest; (some (v, called) :: r.1, r.2)
+
 end GrVerif.Borrow
